@@ -22,6 +22,7 @@ Notation handle_close := (handle_close C after).
 Notation deliver := (deliver C after).
 Notation taste_of := (taste_of C taste).
 Notation clauses := (clauses C after).
+Notation abort_violation := (abort_violation C).
 Notation step_nobody_a := (step_nobody_a C taste after).
 Notation begin_body_a := (begin_body_a C taste).
 Notation finish_body_a := (finish_body_a C after).
@@ -116,6 +117,12 @@ Proof.
     eapply coh_st; [|apply coh_violation]. reflexivity.
 Qed.
 
+Lemma coh_abort_violation c : coh c (abort_violation c).
+Proof.
+  unfold AnswerRecv.abort_violation. destruct abort_in_index_phase_abandons_sequence; [|apply coh_violation].
+  pose proof (coh_violation c (a_inopen c) false) as H. unfold coh in *. exact H.
+Qed.
+
 Lemma coh_cont c c2 es r : a_st c2 = run_from (a_st c) es -> coh c2 r -> coh c (fst r, es ++ snd r).
 Proof. unfold coh. cbn [fst snd]. intros E H. rewrite H, E, run_from_app. reflexivity. Qed.
 
@@ -126,9 +133,10 @@ Proof.
   destruct (ty =? tok_OPEN).
   { destruct rej; [destruct (a_inopen _)|]; apply K; reflexivity. }
   destruct (ty =? tok_CLOSE).
-  { destruct (0 <? a_disc c2); [apply K; reflexivity|]. apply (coh_cont c c2); [exact E|apply coh_handle_close]. }
+  { destruct (close_in_index_phase_is_fatal && a_inopen c2 && negb (0 <? a_disc c2)); [apply K; reflexivity|].
+    destruct (0 <? a_disc c2); [apply K; reflexivity|]. apply (coh_cont c c2); [exact E|apply coh_handle_close]. }
   destruct (ty =? tok_ABORT).
-  { destruct rej; [apply K; reflexivity|]. apply (coh_cont c c2); [exact E|apply coh_violation]. }
+  { destruct rej; [apply K; reflexivity|]. apply (coh_cont c c2); [exact E|apply coh_abort_violation]. }
   destruct (ty =? tok_INT).
   { destruct rej; [apply K; reflexivity|]. apply (coh_cont c c2); [exact E|apply coh_deliver]. }
   destruct (ty =? tok_NEG).
@@ -434,6 +442,14 @@ Proof.
     eapply eo_top; [|apply eo_violation]. reflexivity.
 Qed.
 
+Lemma eo_abort_violation c : emits_ok c (abort_violation c).
+Proof.
+  unfold AnswerRecv.abort_violation. destruct abort_in_index_phase_abandons_sequence; [|apply eo_violation].
+  pose proof (eo_violation c (a_inopen c) false) as V. pose proof (top_violation c (a_inopen c) false) as TV.
+  unfold emits_ok in *. cbn [fst snd]. destruct V as [V|(err & h & hv & oc & kids & V1 & _ & V3)]; [left; exact V|right].
+  exists err, h, hv, oc, kids. split; [exact V1|split; [exact TV|exact V3]].
+Qed.
+
 Lemma eo_cont c r : emits_ok c r -> emits_ok c (fst r, [] ++ snd r).
 Proof. destruct r. exact (fun H => H). Qed.
 
@@ -441,8 +457,10 @@ Lemma eo_clauses_nil c rej ty hdr : emits_ok c (clauses c [] rej ty hdr).
 Proof.
   unfold AnswerRecv.clauses.
   destruct (ty =? tok_OPEN). { destruct rej; [destruct (a_inopen _)|]; left; reflexivity. }
-  destruct (ty =? tok_CLOSE). { destruct (0 <? a_disc c); [left; reflexivity|]. apply eo_cont, eo_handle_close. }
-  destruct (ty =? tok_ABORT). { destruct rej; [left; reflexivity|]. apply eo_cont, eo_violation. }
+  destruct (ty =? tok_CLOSE).
+  { destruct (close_in_index_phase_is_fatal && a_inopen c && negb (0 <? a_disc c)); [left; reflexivity|].
+    destruct (0 <? a_disc c); [left; reflexivity|]. apply eo_cont, eo_handle_close. }
+  destruct (ty =? tok_ABORT). { destruct rej; [left; reflexivity|]. apply eo_cont, eo_abort_violation. }
   destruct (ty =? tok_INT). { destruct rej; [left; reflexivity|]. apply eo_cont, eo_deliver. }
   destruct (ty =? tok_NEG). { destruct rej; [left; reflexivity|]. apply eo_cont, eo_deliver. }
   destruct (ty =? tok_VOCAB).
@@ -512,7 +530,7 @@ Proof.
     assert (D1 : (0 <? a_disc c1) = true) by (unfold c1; destruct (ty =? tok_OPEN); exact D).
     unfold AnswerRecv.clauses.
     destruct (ty =? tok_OPEN). { destruct (a_inopen _); reflexivity. }
-    destruct (ty =? tok_CLOSE). { rewrite D1. reflexivity. }
+    destruct (ty =? tok_CLOSE). { rewrite D1. cbn [negb]. rewrite andb_false_r. reflexivity. }
     destruct (ty =? tok_ABORT); [reflexivity|]. destruct (ty =? tok_INT); [reflexivity|].
     destruct (ty =? tok_NEG); [reflexivity|].
     destruct (ty =? tok_VOCAB). { destruct (vocab_get _ _); reflexivity. }
@@ -579,7 +597,8 @@ End Proofs.
    Non-vacuity: concrete byte strings through the concrete oracle of the correspondence *)
 Definition o0 (tasters : list (option taster)) : coracle :=
   {| co_tasters := tasters; co_max_index := 15; co_copyable := [99; 111; 112; 121; 97; 98; 108; 101];
-     co_max_copyable := 30; co_second := false |}.
+     co_max_copyable := 30; co_second := false;
+     co_known := [[108; 105; 115; 116]; [117; 110; 105; 99; 111; 100; 101]]; co_copyables := [[70]] |}.
 Definition go0 tasters js := jrun coracle c_taste c_after (jinit coracle (o0 tasters) []) js.
 Definition fires0 tasters js := map (fun c => map ocode (c_fires c)) (calls (jst coracle (fst (go0 tasters js)))).
 (* OPEN(0) "answer" INT 1 INT 5 CLOSE(0) *)
